@@ -851,15 +851,6 @@ def run_merge_hist(case, ctx):
         if left:
             raise Violation("particles vanished without being merged into a survivor: hashes %s" % sorted(left)[:5])
         check_conservation(s0, s1, R, len(gone), "merge (%s, step %d)" % (mode, nsteps), ctx)
-        if tree:
-            # the tree searches prune cells with the two largest radii: after every step the recorded maxima must
-            # bound the two largest radii present, or a pair of the two largest bodies can be skipped
-            mr = maxrad(sim)
-            rr = np.sort(s1["r"])[::-1]
-            if mr is not None and len(rr) >= 2 and (mr[0] < rr[0] or mr[1] < rr[1]):
-                raise Violation("%s search: recorded largest radii (%r, %r) are smaller than the two largest radii "
-                                "present (%r, %r) after a step with mergers: the pruning bound is too small for that pair"
-                                % (mode, mr[0], mr[1], float(rr[0]), float(rr[1])), step=nsteps)
         # completeness: no clearly colliding pair may be left with both members untouched
         for pr in sorted(must):
             hi, hj = int(s0["hash"][pr[0]]), int(s0["hash"][pr[1]])
@@ -874,6 +865,15 @@ def run_merge_hist(case, ctx):
                                 % (mode, hi, hj, s0["r"][pr[0]], s0["r"][pr[1]],
                                    " - both radii grew in earlier mergers" if both else ""),
                                 max_radius=maxrad(sim), step=nsteps)
+        if tree:
+            # the tree searches prune cells with the two largest radii: after every step the recorded maxima must
+            # bound the two largest radii present, or a pair of the two largest bodies can be skipped
+            mr = maxrad(sim)
+            rr = np.sort(s1["r"])[::-1]
+            if mr is not None and len(rr) >= 2 and (mr[0] < rr[0] or mr[1] < rr[1]):
+                raise Violation("%s search: recorded largest radii (%r, %r) are smaller than the two largest radii "
+                                "present (%r, %r) after a step with mergers: the pruning bound is too small for that pair"
+                                % (mode, mr[0], mr[1], float(rr[0]), float(rr[1])), step=nsteps)
         for pr in must:
             hi, hj = int(s0["hash"][pr[0]]), int(s0["hash"][pr[1]])
             if hi in prev_merged and hj in prev_merged:
@@ -1045,8 +1045,9 @@ def run_bounce(case, ctx):
                 kb, ka = ke(b), ke(a)
                 # condition: the impulse is accurate to a few eps of the speeds involved, whichever particle carries
                 # the kinetic energy: (m1+m2) * (sum of all speeds)^2
-                spd = sum(np.sqrt(sum((LD(s_[f][q]) + (LD(g) if q == p1 else 0)) ** 2
-                                      for f, g in zip(("vx", "vy", "vz"), gb[3:]))) for s_ in (b, a) for q in (p1, p2))
+                # (raw speeds and the image's velocity offset separately: their sum is what gets rounded)
+                spd = sum(np.sqrt(sum(LD(s_[f][q]) ** 2 for f in ("vx", "vy", "vz"))) for s_ in (b, a) for q in (p1, p2)) \
+                    + 2 * np.sqrt(sum(LD(g) ** 2 for g in gb[3:]))
                 tol = 64 * R.EPS * ((m1 + m2) * spd * spd + kb + ka)
                 if tol > 0:
                     ctx.stat_max("bounce_ke_err/tol", float(abs(ka - kb) / tol))
